@@ -1302,7 +1302,9 @@ Definition rule_load (S : src) (env : envt) (st : lst) (e : lexev) : R lst :=
   | None => Fail FGo
   | Some r =>
     do r' <- rl_step S env r e;
-    let st' := mklst (l_mode st) (l_cnt st) (l_root st) (l_stack st) (Some r') in
+    (* eighth-round fix: a line break inside a multi-line annotation ends the line of the nodes written before it as well *)
+    let cnt := match e_type e with NewLine => 0%N | _ => l_cnt st end in
+    let st' := mklst (l_mode st) cnt (l_root st) (l_stack st) (Some r') in
     Ok (match rl_node r' with Some d => set_last d st' | None => st' end)
   end.
 
